@@ -285,6 +285,8 @@ def evaluated_first(header: ast.AST, load: ast.AST) -> bool:
             elif isinstance(ch, ast.keyword):
                 walk(ch.value, cond)
         if isinstance(e, IMPURE) and not state["found"]:
+            if isinstance(e, ast.Call) and isinstance(e.func, ast.Name) and e.func.id == "globals" and not e.args and not e.keywords:
+                return
             state["dirty"] = True
 
     walk(header, False)
@@ -332,7 +334,7 @@ def flag_tree_value(stmts: List[ast.stmt], name: str, cur: Optional[ast.AST], bo
         if isinstance(st, ast.Pass):
             continue
         if plain_assign(st) == name:
-            if not bool_typed(st.value, bools | {name}) or any(isinstance(n, ast.Name) and n.id == name for n in ast.walk(st.value)):
+            if not (bool_typed(st.value, bools | {name}) or const_branches(st.value)) or any(isinstance(n, ast.Name) and n.id == name for n in ast.walk(st.value)):
                 return None
             cur = st.value
             continue
@@ -366,6 +368,194 @@ def flatten_boolop(e: ast.AST) -> ast.AST:
     return e
 
 
+# ------------------------------------------------------------------------------------------------ S8 / T1
+def fold_known_flags(fn: ast.AST) -> int:
+    """S8: `f = True ; ... ; if f: A else: B` with nothing in between assigning f  ->  `f = True ; ... ; A`."""
+    esc = escaping_names(fn) | params_of(fn)
+    count = [0]
+
+    def stored(st) -> Set[str]:
+        return {n.id for n in ast.walk(st) if isinstance(n, ast.Name) and isinstance(n.ctx, (ast.Store, ast.Del))} | \
+            {h.name for h in ast.walk(st) if isinstance(h, ast.ExceptHandler) and h.name}
+
+    def value_of(e, known):
+        """True / False when the test is decided by the known flags, else None."""
+        if isinstance(e, ast.Name) and e.id in known:
+            return known[e.id]
+        if isinstance(e, ast.UnaryOp) and isinstance(e.op, ast.Not):
+            v = value_of(e.operand, known)
+            return None if v is None else not v
+        return None
+
+    def simplify_test(e, known):
+        if isinstance(e, ast.BoolOp):
+            unit = isinstance(e.op, ast.And)
+            vals = []
+            for v in e.values:
+                k = value_of(v, known)
+                if k is None:
+                    vals.append(simplify_test(v, known))
+                elif k is unit:
+                    count[0] += 1
+                    continue
+                else:
+                    vals.append(ast.copy_location(ast.Constant(value=k), v))
+                    break
+            if not vals:
+                return ast.copy_location(ast.Constant(value=unit), e)
+            if len(vals) == 1:
+                return vals[0]
+            e.values = vals
+        return e
+
+    def block(stmts, known: Dict[str, bool]):
+        out = []
+        known = dict(known)
+        for st in stmts:
+            if isinstance(st, FUNC):
+                out.append(st)
+                continue
+            if isinstance(st, ast.If):
+                st.test = simplify_test(st.test, known)
+                v = value_of(st.test, known)
+                if v is None and isinstance(st.test, ast.Constant) and isinstance(st.test.value, bool):
+                    v = st.test.value
+                if v is not None:
+                    count[0] += 1
+                    taken = st.body if v else st.orelse
+                    new = block(taken, known)
+                    out.extend(new)
+                    for x in new:
+                        for nm in stored(x):
+                            known.pop(nm, None)
+                    for x in new:
+                        t = plain_assign(x)
+                        if t and t not in esc and isinstance(x.value, ast.Constant) and isinstance(x.value.value, bool):
+                            known[t] = x.value.value
+                    continue
+                st.body = block(st.body, known)
+                st.orelse = block(st.orelse, known) if st.orelse else []
+            elif isinstance(st, (ast.For, ast.While, ast.AsyncFor)):
+                inner = {k: v for k, v in known.items() if k not in stored(st)}
+                st.body = block(st.body, inner)
+                st.orelse = block(st.orelse, inner) if st.orelse else []
+            elif isinstance(st, ast.Try):
+                inner = {k: v for k, v in known.items() if k not in stored(st)}
+                st.body = block(st.body, known)
+                for h in st.handlers:
+                    h.body = block(h.body, inner)
+                st.orelse = block(st.orelse, inner) if st.orelse else []
+                st.finalbody = block(st.finalbody, inner) if st.finalbody else []
+            elif isinstance(st, (ast.With, ast.AsyncWith)):
+                st.body = block(st.body, known)
+            for nm in stored(st):
+                known.pop(nm, None)
+            t = plain_assign(st)
+            if t and t not in esc and isinstance(st.value, ast.Constant) and isinstance(st.value.value, bool):
+                known[t] = st.value.value
+            out.append(st)
+        return out
+    fn.body = block(fn.body, {}) or [ast.Pass()]
+    return count[0]
+
+
+def drop_dead_stores(fn: ast.AST) -> int:
+    """S9: `flag = <constant>` directly before a return / raise that does not read it (and that no handler can see)."""
+    esc = escaping_names(fn) | params_of(fn)
+    seen_by_handlers = set()
+    for n in ast.walk(fn):
+        if isinstance(n, ast.Try):
+            for part in [x for h in n.handlers for x in h.body] + list(n.finalbody):
+                seen_by_handlers |= {x.id for x in ast.walk(part) if isinstance(x, ast.Name)}
+    count = [0]
+
+    def block(stmts):
+        stmts = list(stmts)
+        for st in stmts:
+            if isinstance(st, FUNC):
+                continue
+            for fld in ("body", "orelse", "finalbody"):
+                if getattr(st, fld, None):
+                    setattr(st, fld, block(getattr(st, fld)))
+            for h in getattr(st, "handlers", []) or []:
+                h.body = block(h.body)
+        if stmts and isinstance(stmts[-1], (ast.Return, ast.Raise)):
+            read = {x.id for x in ast.walk(stmts[-1]) if isinstance(x, ast.Name)}
+            k = len(stmts) - 2
+            keep = []
+            while k >= 0:
+                st = stmts[k]
+                t = plain_assign(st)
+                if t is None or not isinstance(st.value, (ast.Constant, ast.Name)):
+                    break
+                if t in read or t in esc or t in seen_by_handlers:
+                    keep.append(st)
+                    read |= {x.id for x in ast.walk(st.value) if isinstance(x, ast.Name)}
+                else:
+                    count[0] += 1
+                k -= 1
+            stmts = stmts[:k + 1] + list(reversed(keep)) + [stmts[-1]]
+        return stmts
+    fn.body = block(fn.body)
+    return count[0]
+
+
+def _always_leaves(stmts) -> bool:
+    for st in stmts:
+        if isinstance(st, (ast.Return, ast.Raise)):
+            return True
+        if isinstance(st, ast.If) and st.orelse and _always_leaves(st.body) and _always_leaves(st.orelse):
+            return True
+    return False
+
+
+def sink_loop_exit(fn: ast.AST) -> int:
+    """T1: a loop followed by a short tail that always returns: every `break` of the loop is replaced by a copy of the tail
+    (break jumps exactly there). Flags that only tell the tail how the loop was left then fold away (S8)."""
+    count = [0]
+
+    def replace_breaks(stmts, tail):
+        out = []
+        for st in stmts:
+            if isinstance(st, ast.Break):
+                out.extend(copy.deepcopy(tail))
+                continue
+            if isinstance(st, FUNC) or isinstance(st, (ast.For, ast.While, ast.AsyncFor)):
+                out.append(st)
+                continue
+            for fld in ("body", "orelse", "finalbody"):
+                if getattr(st, fld, None):
+                    setattr(st, fld, replace_breaks(getattr(st, fld), tail))
+            for h in getattr(st, "handlers", []) or []:
+                h.body = replace_breaks(h.body, tail)
+            out.append(st)
+        return out
+
+    def block(stmts):
+        stmts = list(stmts)
+        for i, st in enumerate(stmts):
+            if isinstance(st, FUNC):
+                continue
+            for fld in ("body", "orelse", "finalbody"):
+                if getattr(st, fld, None):
+                    setattr(st, fld, block(getattr(st, fld)))
+            for h in getattr(st, "handlers", []) or []:
+                h.body = block(h.body)
+            if isinstance(st, (ast.For, ast.While)) and not st.orelse:
+                tail = stmts[i + 1:]
+                brk = own_jumps(st.body, (ast.Break,))
+                in_try = any(isinstance(x, ast.Try) and any(isinstance(y, ast.Break) for y in ast.walk(x)) for x in ast.walk(st))
+                size = sum(1 for x in tail for _ in ast.walk(x))
+                if tail and 1 <= len(brk) <= 4 and not in_try and _always_leaves(tail) and size <= 80 and not any(isinstance(x, FUNC) for t in tail for x in ast.walk(t)):
+                    st.body = replace_breaks(st.body, tail)
+                    count[0] += 1
+        return stmts
+    fn.body = block(fn.body)
+    if count[0]:
+        ast.fix_missing_locations(fn)
+    return count[0]
+
+
 # ------------------------------------------------------------------------------------------------ the statement-level pass
 def simplify_defensive(fn: ast.AST) -> int:
     if not isinstance(fn, (ast.FunctionDef, ast.AsyncFunctionDef)):
@@ -374,6 +564,8 @@ def simplify_defensive(fn: ast.AST) -> int:
     for _round in range(6):
         count = [0]
         count[0] += int_flags(fn)
+        count[0] += drop_dead_stores(fn)
+        count[0] += fold_known_flags(fn)
         bools = boolean_locals(fn)
         tr = _BoolCompare(bools)
         for i, st in enumerate(fn.body):
@@ -440,7 +632,7 @@ def simplify_defensive(fn: ast.AST) -> int:
                         flag = next(iter(targets))
                     if flag is not None and flag not in par:
                         start = None
-                        if pname == flag and bool_typed(prev.value, bools) and isinstance(prev.value, (ast.Constant, ast.Name)):
+                        if pname == flag and isinstance(prev.value, ast.Constant) or (pname == flag and bool_typed(prev.value, bools) and isinstance(prev.value, ast.Name)):
                             start = prev.value
                         val = flag_tree_value([st], flag, copy.deepcopy(start) if start is not None else None, bools | {flag})
                         if val is not None:
@@ -451,6 +643,24 @@ def simplify_defensive(fn: ast.AST) -> int:
                             stmts[i] = new
                             count[0] += 1
                             continue
+                # S6b  f = A ; if not f [and B]: f = C   ->   f = A or ([B and] C)
+                if isinstance(st, ast.If) and not st.orelse and len(st.body) == 1 and out and plain_assign(out[-1]) is not None and plain_assign(st.body[0]) == plain_assign(out[-1]):
+                    fl = plain_assign(out[-1])
+                    A, Cv = out[-1].value, st.body[0].value
+                    tests = list(st.test.values) if isinstance(st.test, ast.BoolOp) and isinstance(st.test.op, ast.And) else [st.test]
+                    first = tests[0]
+                    is_not_f = isinstance(first, ast.UnaryOp) and isinstance(first.op, ast.Not) and isinstance(first.operand, ast.Name) and first.operand.id == fl
+
+                    def mentions(e):
+                        return any(isinstance(n, ast.Name) and n.id == fl for n in ast.walk(e))
+                    if fl not in par and is_not_f and bool_typed(A, bools) and bool_typed(Cv, bools) and not mentions(Cv) and not any(mentions(x) for x in tests[1:]) \
+                            and all(bool_typed(x, bools) for x in tests[1:]):
+                        rhs = Cv if len(tests) == 1 else ast.BoolOp(op=ast.And(), values=tests[1:] + [Cv])
+                        out[-1].value = flatten_boolop(ast.copy_location(ast.BoolOp(op=ast.Or(), values=[A, rhs]), A))
+                        ast.fix_missing_locations(out[-1])
+                        count[0] += 1
+                        stmts[i] = out.pop()
+                        continue
                 # S5
                 t = plain_assign(st)
                 if t is not None and t not in par and i + 1 < len(stmts) and not isinstance(st.value, (ast.Yield, ast.YieldFrom, ast.Await)):
@@ -908,6 +1118,13 @@ def simplify_boolop(e: ast.AST) -> ast.AST:
 def defunctionalize_call(n: ast.Call, resolve) -> Optional[ast.AST]:
     from .normalize import Subst, is_const_expr
     f = n.func
+    # a call of a conditional expression choosing the callee: the call is made in each branch (the test is evaluated first either way)
+    if isinstance(f, ast.IfExp) and all(_simple(x) for x in n.args) and all(_simple(k.value) for k in n.keywords):
+        def push(e):
+            if isinstance(e, ast.IfExp):
+                return ast.IfExp(test=e.test, body=push(e.body), orelse=push(e.orelse))
+            return ast.Call(func=e, args=copy.deepcopy(n.args), keywords=copy.deepcopy(n.keywords))
+        return push(f)
     # F4 immediately applied lambda
     if isinstance(f, ast.Lambda) and not n.keywords and not any(isinstance(a, ast.Starred) for a in n.args):
         return apply_callable(f, list(n.args))
@@ -1055,6 +1272,41 @@ def defunctionalize_call(n: ast.Call, resolve) -> Optional[ast.AST]:
         return ast.Attribute(value=a[0], attr=a[1].value, ctx=ast.Load())
     if q == "builtins.list" and not n.keywords and len(a) == 1 and isinstance(a[0], ast.GeneratorExp):
         return ast.ListComp(elt=a[0].elt, generators=a[0].generators)
+    return None
+
+
+def const_branches(e: ast.AST, depth: int = 0) -> bool:
+    """A conditional expression all of whose leaves are constants."""
+    if isinstance(e, ast.IfExp) and depth < 6:
+        return const_branches(e.body, depth + 1) and const_branches(e.orelse, depth + 1)
+    return isinstance(e, ast.Constant)
+
+
+def subscript_rules(n: ast.Subscript, root, resolve) -> Optional[ast.AST]:
+    """F9  T[k1 if c else k2]      ->  T[k1] if c else T[k2]     (T a display of constants / function names, or globals())
+       F10 {k: v, ...}[<constant>]  ->  v                         globals()["name"] -> name"""
+    from .normalize import is_const_expr
+    v, k = n.value, n.slice
+    is_globals = isinstance(v, ast.Call) and isinstance(v.func, ast.Name) and v.func.id == "globals" and not v.args and not v.keywords and resolve(v.func) == "builtins.globals"
+    plain_table = isinstance(v, (ast.Dict, ast.Tuple)) and all(isinstance(x, (ast.Name, ast.Constant)) or is_const_expr(x) for x in (v.values if isinstance(v, ast.Dict) else v.elts)) \
+        and (not isinstance(v, ast.Dict) or all(kk is not None and is_const_expr(kk) for kk in v.keys))
+    if isinstance(k, ast.IfExp) and const_branches(k) and (is_globals or plain_table):
+        def push(e):
+            if isinstance(e, ast.IfExp):
+                return ast.IfExp(test=e.test, body=push(e.body), orelse=push(e.orelse))
+            return ast.Subscript(value=copy.deepcopy(v), slice=e, ctx=ast.Load())
+        return push(k)
+    if isinstance(k, ast.Constant):
+        if is_globals and isinstance(k.value, str) and k.value.isidentifier():
+            local = {x.id for x in ast.walk(root) if isinstance(x, ast.Name) and isinstance(x.ctx, (ast.Store, ast.Del))} if isinstance(root, (ast.FunctionDef, ast.AsyncFunctionDef)) else set()
+            if isinstance(root, (ast.FunctionDef, ast.AsyncFunctionDef)):
+                local |= params_of(root)
+            if k.value not in local:
+                return ast.Name(id=k.value, ctx=ast.Load())
+        if isinstance(v, ast.Dict) and plain_table:
+            hits = [val for kk, val in zip(v.keys, v.values) if isinstance(kk, ast.Constant) and type(kk.value) is type(k.value) and kk.value == k.value]
+            if len(hits) == 1 and all(isinstance(kk, ast.Constant) for kk in v.keys):
+                return hits[0]
     return None
 
 
